@@ -274,11 +274,47 @@ func evalC09(c *Ctx, cs EnumCase) EnumResult {
 	return res
 }
 
+// oracleRingOrder: the replication ring lists the persisted records in the order of the log (file index,
+// then offset, without gaps inside a file).
+func oracleRingOrder(r *EngRun) []explore.Violation {
+	ids := strings.Fields(r.Probes["ringids"])
+	pi, po := -1, -1
+	for n, s := range ids {
+		var i, o int
+		fmt.Sscanf(s, "%d.%d", &i, &o)
+		if n > 0 && (i < pi || (i == pi && o != po+1)) {
+			return []explore.Violation{{Sig: "C09:ring-order-differs-from-log", Msg: fmt.Sprintf("the replication ring holds the records in the order [%s] (file.offset): record %s follows %d.%d, followers and joining followers see another sequence than the leader's log", strings.Join(ids, " "), s, pi, po)}}
+		}
+		pi, po = i, o
+	}
+	if len(ids) < 2 {
+		return []explore.Violation{{Sig: "C09:ring-empty", Msg: fmt.Sprintf("harness: the ring holds %d records after two persisted locks", len(ids))}}
+	}
+	return nil
+}
+
 func init() {
 	enumCheck("C09", "fault_enumeration",
 		func(q bool) []*EnumPlan {
 			return []*EnumPlan{{Name: "stream-cuts", Cases: c09Cases, Eval: evalC09}}
-		}, nil,
+		},
+		func(q bool) *SchedPlan {
+			// concurrent appenders (one per key shard): the order of the replication ring must be the order of the log
+			cfg := hapi.Config{FastKeys: 4, Concurrent: 2, FileBuf: 64}
+			z := func(c hapi.Cmd) Step { return C(withEF(c, efZeroAof)) }
+			return &SchedPlan{Specs: []*EngSpec{
+				{Name: "two-appenders", Cfg: cfg, Fine: true, Probes: []string{"ringids"},
+					Threads: [][]Step{{z(L(1, 1, 1, 0, 50, 0, 0))}, {z(L(2, 2, 2, 0, 50, 0, 0))}}},
+				{Name: "two-appenders-after-history", Cfg: cfg, Fine: true, Probes: []string{"ringids"},
+					Setup:   []Step{z(L(9, 5, 5, 0, 50, 0, 0)), z(L(8, 6, 6, 0, 50, 0, 0))},
+					Threads: [][]Step{{z(L(1, 1, 1, 0, 50, 0, 0)), C(U(3, 1, 1))}, {z(L(2, 2, 2, 0, 50, 0, 0))}}},
+			}, Oracles: []Oracle{oracleRingOrder}, Bound: func(s *EngSpec, q bool) int {
+				if q {
+					return 2
+				}
+				return 3
+			}, MaxExec: schedCap(6000)}
+		},
 		"leader n0 and follower n1 are real node copies connected over the in-memory network; for each workload (requests before the follower joins = file transfer, after = live stream; values, partial unlocks, an expiry, log rotation, a 4-record ring buffer) the leader->follower byte stream of the first replication link is cut after EVERY byte offset (one execution per offset; the follower's real 5 s reconnect runs on virtual time), plus a second cut of the re-established link at sampled offsets; once the leader is quiescent the follower's holds (key, LockId, depth, Count, Rcount, value, deadline within 2 s) must equal the leader's; distinct = distinct (links opened, follower state)",
 		[]string{"message handlers run under the default schedule (handler atomicity); cuts are at byte granularity of the leader's writes", "all workload holds are persist-immediately so that the leader's state is its persisted state", "second cuts use a fixed grid of offsets (bounded, not every pair)"})
 }
